@@ -77,13 +77,12 @@ Trim(ss) == IF Len(ss) > 1 THEN Tail(ss) ELSE ss
 
 -----------------------------------------------------------------------------
 \* Append, the part under the queue lock.  Returns the new [segs, buf] and the call's result.
-AppStart(w, tok) ==
-  LET blk == [id |-> nextB, w |-> w] IN
+AppStartB(blk, bufd) ==
+  LET w == blk.w IN
   IF ~open THEN [segs |-> segs, buf |-> buf, res |-> "notopen", bufd |-> FALSE, defer |-> FALSE]
   ELSE IF DiskWordsOf(segs) + w > MaxQW
        THEN [segs |-> segs, buf |-> buf, res |-> "full", bufd |-> FALSE, defer |-> FALSE]
-  ELSE LET bufd == tok >= BufT IN
-       IF SegWords(LastSeg(segs)) + SumWords(buf) + w > maxSeg
+  ELSE IF SegWords(LastSeg(segs)) + SumWords(buf) + w > maxSeg
        THEN \* segment.append flushes and reports ErrSegmentFull; the queue adds a segment and retries
             LET s1 == Flushed(segs, buf)
                 s2 == Append(s1, NewSeg(s1)) IN
@@ -93,6 +92,8 @@ AppStart(w, tok) ==
                  ELSE [segs |-> Flushed(s2, <<blk>>), buf |-> <<>>, res |-> "ok", bufd |-> FALSE, defer |-> TRUE]
        ELSE IF bufd THEN [segs |-> segs, buf |-> Append(buf, blk), res |-> "ok", bufd |-> TRUE, defer |-> TRUE]
             ELSE [segs |-> Flushed(segs, Append(buf, blk)), buf |-> <<>>, res |-> "ok", bufd |-> FALSE, defer |-> TRUE]
+
+AppStart(w, tok) == AppStartB([id |-> nextB, w |-> w], tok >= BufT)
 
 Take(a) == /\ pc[a] = "idle" /\ nextB <= MaxBlocks
            /\ IF tokens < MaxTok
